@@ -103,6 +103,7 @@ macro_rules! registry {
         #[kani::proof]
         #[kani::unwind($unwind)]
         #[kani::stub(alloc::fmt::format, crate::stubs::stub_format)]
+        #[kani::stub(core::ptr::align_offset, crate::stubs::no_align_offset)]
         #[kani::stub(core::arch::x86_64::__cpuid_count, crate::stubs::fake_cpuid)]
         #[kani::stub(tracing_core::callsite::DefaultCallsite::interest, crate::stubs::stub_interest)]
         #[kani::stub(tracing::__macro_support::__is_enabled, crate::stubs::stub_is_enabled)]
@@ -115,6 +116,7 @@ macro_rules! registry {
         #[kani::proof]
         #[kani::unwind($unwind)]
         #[kani::stub(alloc::fmt::format, crate::stubs::stub_format)]
+        #[kani::stub(core::ptr::align_offset, crate::stubs::no_align_offset)]
         #[kani::stub(core::arch::x86_64::__cpuid_count, crate::stubs::fake_cpuid)]
         #[kani::stub(tracing_core::callsite::DefaultCallsite::interest, crate::stubs::stub_interest)]
         #[kani::stub(tracing::__macro_support::__is_enabled, crate::stubs::stub_is_enabled)]
@@ -129,6 +131,7 @@ macro_rules! registry {
         #[kani::proof]
         #[kani::unwind($unwind)]
         #[kani::stub(alloc::fmt::format, crate::stubs::stub_format)]
+        #[kani::stub(core::ptr::align_offset, crate::stubs::no_align_offset)]
         #[kani::stub(core::arch::x86_64::__cpuid_count, crate::stubs::fake_cpuid)]
         #[kani::stub(tracing_core::callsite::DefaultCallsite::interest, crate::stubs::stub_interest)]
         #[kani::stub(tracing::__macro_support::__is_enabled, crate::stubs::stub_is_enabled)]
@@ -142,6 +145,7 @@ macro_rules! registry {
         #[kani::proof]
         #[kani::unwind($unwind)]
         #[kani::stub(alloc::fmt::format, crate::stubs::stub_format)]
+        #[kani::stub(core::ptr::align_offset, crate::stubs::no_align_offset)]
         #[kani::stub(core::arch::x86_64::__cpuid_count, crate::stubs::fake_cpuid)]
         #[kani::stub(tracing_core::callsite::DefaultCallsite::interest, crate::stubs::stub_interest)]
         #[kani::stub(tracing::__macro_support::__is_enabled, crate::stubs::stub_is_enabled)]
